@@ -3106,3 +3106,8 @@ V(id='c14-mpf-outward-nan-passed-on', prop='C14', file='mpmath/libmp/libmpi.py',
 V(id='c14-mpf-outward-nan-bounds-swapped', prop='C14', file='mpmath/libmp/libmpi.py',
   old="    if v == fnan:\n        if rounding == round_floor:\n            return fninf\n        return finf\n",
   new="    if v == fnan:\n        if rounding == round_floor:\n            return finf\n        return fninf\n", expect='fire:C-R23:mpf_outward')
+
+# ---- C13 E-X4 size bound needs an else (fourth hunt; fix 399d6d5) ----
+V(id='c13-powm1-zero-beyond-size-bound', prop='C13', file='mpmath/functions/functions.py',
+  old="                    w = ctx.expm1(y*ctx.log1p(d))\n", new="                    pass\n",
+  expect='fire:E-X4:powm1')
